@@ -619,7 +619,8 @@ Proof.
         -- apply orb_false_elim in H2 as [_ H2]. auto.
       * intros [[H|H] H2]; [left; exact H|].
         destruct (N.eqb_spec x a) as [EQ|NE]; [left; symmetry; exact EQ|].
-        right. split; [exact H|]. simpl. apply N.eqb_neq in NE. rewrite NE. exact H2.
+        right. split; [exact H|]. change (memN x (a :: seen)) with (orb (N.eqb x a) (memN x seen)).
+        simpl. exact H2.
 Qed.
 
 Lemma bulk_toks_In b d t : In d b -> In t (d_toks d) -> In t (bulk_toks b).
@@ -672,34 +673,396 @@ Lemma fok_put c f f' v b k docs lids :
   fok c f -> fok c f'.
 Proof.
   intros A B C E t D V K INC F2 PR F. pose proof F as [HS P L Q R T].
-  set (grp := group_lids t docs lids) in *.
+  assert (Ht : t = nth k (put_order v b) 0%N) by reflexivity. clearbody t.
+  remember (group_lids t docs lids) as grp eqn:Hg.
   assert (TK : forall y, tl_tok (put_tl grp y) = tl_tok y) by reflexivity.
   assert (MONO : forall t' lid, In lid (post f t') -> In lid (post f' t')).
   { intros t' lid H. unfold post in *. rewrite D. apply upd_tok_fext_post; auto. intros y l0 H0. apply put_tl_posting; auto. }
   assert (GRP : forall lid, In lid grp -> exists d, In d docs /\ ldoc f lid d /\ memN t (d_toks d) = true
                  /\ forall j, j < k -> memN (nth j (put_order v b) 0%N) (d_toks d) = true ->
                                  In lid (post f (nth j (put_order v b) 0%N))).
-  { intros lid H. apply group_lids_inv in H as [i [d [H1 [H2 H3]]]]. exists d. split; [eapply nth_error_In; eauto|].
+  { intros lid H. subst grp. apply group_lids_inv in H as [i [d [H1 [H2 H3]]]]. exists d. split; [eapply nth_error_In; eauto|].
     split; [apply (Forall2_nth _ _ _ F2 i d lid H1 H2)|]. split; auto.
     intros j Hj. apply (Forall2_nth _ _ _ (PR j Hj) i d lid H1 H2). }
   constructor; unfold ldoc, blocks_docs in *; rewrite ?A, ?B, ?C, ?E; auto.
   - intros tl lid H1 H2. rewrite D in H1. apply upd_tok_entries in H1 as [y [H3 [H4|[H4 H5]]]]; subst tl; auto.
-    apply put_tl_posting in H2 as [H2|H2]; auto. destruct (GRP lid H2) as [d [_ [G1 [G2 _]]]].
+    apply put_tl_posting in H2 as [H2|H2]; [apply (P y lid H3 H2)|]. destruct (GRP lid H2) as [d [_ [G1 [G2 _]]]].
     exists d. split; auto. rewrite TK, H4. exact G2.
   - intros lid d t' H1 H2 H3. destruct (N.eq_dec t 0%N) as [TZ|TNZ].
     + (* this put is the all-token's *)
-      unfold post in H1. rewrite D, TZ in H1. destruct (has_tok 0%N (f_toks f)) eqn:HT.
+      rewrite TZ in *. clear TZ. unfold post in H1. rewrite D in H1. destruct (has_tok 0%N (f_toks f)) eqn:HT.
       * rewrite get_tok_upd_same in H1 by auto. apply put_tl_posting in H1 as [H1|H1].
         -- apply MONO. eapply L; eauto.
-        -- rewrite <- TZ in H1. destruct (GRP lid H1) as [d0 [G0 [G1 [G2 G3]]]].
+        -- destruct (GRP lid H1) as [d0 [G0 [G1 [G2 G3]]]].
            rewrite (ldoc_fun f lid d d0 H2 G1) in *.
            destruct (N.eq_dec t' 0%N) as [Z|NZ].
-           ++ subst t'. unfold post. rewrite D, TZ. rewrite get_tok_upd_same by auto. apply put_tl_posting. right.
-              rewrite <- TZ. exact H1.
+           ++ subst t'. unfold post. rewrite D. rewrite get_tok_upd_same by auto. apply put_tl_posting. right. exact H1.
            ++ assert (INB : In t' (bulk_toks b)).
               { eapply bulk_toks_In; [apply INC; exact G0|]. apply memN_In. exact H3. }
-              destruct (order_all_last v b k t' V K TZ INB NZ) as [j [J1 J2]].
+              destruct (order_all_last v b k t' V K (eq_sym Ht) INB NZ) as [j [J1 J2]].
               apply MONO. rewrite <- J2. apply G3; auto. rewrite J2. exact H3.
       * rewrite get_tok_none in H1; [simpl in H1; contradiction|]. rewrite has_tok_upd; auto.
     + unfold post in H1. rewrite D in H1. rewrite get_tok_upd_other in H1 by auto. apply MONO. eapply L; eauto.
+Qed.
+
+(* ---------------------------------------------------------------- frac.Seal reads the index *)
+Lemma nth_ids_ldoc f lid d : ldoc f lid d -> nth lid (f_ids f) sys_id = d_id d.
+Proof.
+  unfold ldoc, f_ids. intros H. apply nth_error_nth. rewrite nth_error_map, H. reflexivity.
+Qed.
+
+Lemma bool_eq_iff (a b : bool) : (a = true <-> b = true) -> a = b.
+Proof. destruct a, b; intros [H1 H2]; auto; try (symmetry; apply H1; auto); try (apply H2; auto). Qed.
+
+Lemma fok_build c f f' :
+  f_ldocs f' = f_ldocs f -> f_blocks f' = f_blocks f -> f_pos f' = f_pos f -> f_toks f' = f_toks f ->
+  f_sdocs f' = build_sealed c f -> fok c f -> fok c f'.
+Proof.
+  intros A B C D E F. pose proof F as [HS P L Q R T].
+  constructor; unfold ldoc, post, blocks_docs in *; rewrite ?A, ?B, ?C, ?D; auto.
+  intros sd H. rewrite E in H. unfold build_sealed in H. apply in_map_iff in H as [lid [ESD HL]].
+  assert (HP : In lid (post f 0%N)).
+  { unfold post, posting. simpl in HL. exact HL. }
+  destruct (post_ldoc c f 0%N lid F HP) as [d [D1 D0]].
+  pose proof (post_nonzero c f 0%N lid F HP) as NZ. destruct lid as [|k]; [congruence|].
+  destruct (R k d D1) as [BD [[b i] LP]].
+  destruct (Q _ _ _ LP) as [wb [d' [NB [ND ID]]]].
+  rewrite (nth_ids_ldoc f (S k) d D1) in ESD. rewrite LP in ESD.
+  rewrite (nth_error_nth _ _ (0, 0) NB) in ESD. rewrite (nth_error_nth _ _ (mkDoc sys_id [] 0%N) ND) in ESD.
+  subst sd. simpl. exists d. split; [exact BD|]. split; [reflexivity|]. split.
+  - intros t. apply bool_eq_iff. split; intros M.
+    + apply memN_In in M. apply in_map_iff in M as [tl [ET HT]]. apply filter_In in HT as [HT1 HT2].
+      apply memn_In in HT2. destruct (P tl (S k) HT1 HT2) as [d2 [X1 X2]].
+      rewrite (ldoc_fun f (S k) d d2 D1 X1). rewrite <- ET. exact X2.
+    + pose proof (L (S k) d t HP D1 M) as HT. pose proof (post_has_tok _ _ _ HT) as HH.
+      destruct (get_tok_in _ _ HH) as [G1 G2]. apply memN_In. apply in_map_iff.
+      exists (get_tok t (f_toks f)). split; auto. apply filter_In. split; auto. apply memn_In. exact HT.
+  - exists d'. split; [|split; auto].
+    exists wb. split; [eapply nth_error_In; eauto | eapply nth_error_In; eauto].
+Qed.
+
+(* ---------------------------------------------------------------- steps preserve SInv *)
+Lemma SInv_next c st st' :
+  SInv c st -> ext_all st st' ->
+  (forall g f, nth_error (fracs st') g = Some f -> fok c f) ->
+  (forall w x, nth_error (ws st') w = Some x -> nth_error (ws st) w = Some x \/ wok c st' w x) ->
+  (forall r x, nth_error (rs st') r = Some x -> nth_error (rs st) r = Some x \/ rok st' x) ->
+  SInv c st'.
+Proof.
+  intros [F W R] E HF HW HR. constructor; auto.
+  - intros w x H. destruct (HW w x H) as [H1|H1]; auto. eapply wok_mono; eauto.
+  - intros r x H. destruct (HR r x H) as [H1|H1]; auto. eapply rok_mono; eauto.
+Qed.
+
+Lemma fracs_setf_fok c st g h :
+  SInv c st -> (forall f0, nth_error (fracs st) g = Some f0 -> fok c (h f0)) ->
+  forall g' f, nth_error (fracs (setf st g h)) g' = Some f -> fok c f.
+Proof.
+  intros S H g' f E. unfold setf in E; simpl in E. rewrite nth_error_upd in E.
+  destruct (Nat.eqb_spec g' g).
+  - subst. destruct (nth_error (fracs st) g) eqn:E0; simpl in E; inversion E; subst. auto.
+  - eapply si_f; eauto.
+Qed.
+
+Lemma upd_cases {A} (h : A -> A) l n n' x' :
+  nth_error (upd n h l) n' = Some x' ->
+  nth_error l n' = Some x' \/ (n' = n /\ exists x, nth_error l n = Some x /\ x' = h x).
+Proof.
+  rewrite nth_error_upd. destruct (Nat.eqb_spec n' n); auto.
+  subst. destruct (nth_error l n) eqn:E; simpl; intros H; inversion H; subst. right. eauto.
+Qed.
+
+Lemma step_w_ext c st w : ext_all st (fst (step_w c st w)).
+Proof.
+  intros g. pose proof (step_fext c st (LW (N.of_nat w)) g) as H. simpl in H. rewrite Nat2N.id in H. exact H.
+Qed.
+
+Lemma SInv_w c st w g hf hw x :
+  SInv c st -> nth_error (ws st) w = Some x ->
+  ext_all st (setw (setf st g hf) w hw) ->
+  (forall f0, nth_error (fracs st) g = Some f0 -> fok c (hf f0)) ->
+  wok c (setw (setf st g hf) w hw) w (hw x) ->
+  SInv c (setw (setf st g hf) w hw).
+Proof.
+  intros S EX E HF HW. apply (SInv_next c st); auto.
+  - intros g' f H. eapply (fracs_setf_fok c st g hf); eauto.
+  - intros w' x' H. simpl in H. apply upd_cases in H as [H|[H1 [x0 [H2 H3]]]]; auto.
+    subst. rewrite EX in H2. inversion H2; subst. auto.
+Qed.
+
+Lemma SInv_wonly c st w hw x :
+  SInv c st -> nth_error (ws st) w = Some x -> wok c (setw st w hw) w (hw x) -> SInv c (setw st w hw).
+Proof.
+  intros S EX HW. apply (SInv_next c st); auto.
+  - intros g; apply fext_refl.
+  - intros g f H. eapply si_f; eauto.
+  - intros w' x' H. simpl in H. apply upd_cases in H as [H|[H1 [x0 [H2 H3]]]]; auto.
+    subst. rewrite EX in H2. inversion H2; subst. auto.
+Qed.
+
+Lemma getf_setw_setf st g hf w hw :
+  g < length (fracs st) -> getf (setw (setf st g hf) w hw) g = hf (getf st g).
+Proof.
+  intros L. change (getf (setw (setf st g hf) w hw) g) with (getf (setf st g hf) g).
+  rewrite getf_setf, Nat.eqb_refl. apply Nat.ltb_lt in L. rewrite L. reflexivity.
+Qed.
+
+Lemma seq_nth_error len n i : i < n -> nth_error (seq len n) i = Some (len + i).
+Proof.
+  revert len i; induction n; intros len i H; [lia|]. destruct i; simpl.
+  - f_equal. lia.
+  - rewrite IHn by lia. f_equal. lia.
+Qed.
+
+Lemma incl_filter {A} (p : A -> bool) l : incl (filter p l) l.
+Proof. intros x H. apply filter_In in H. tauto. Qed.
+
+Ltac vac := constructor; simpl; intros; lia.
+
+Lemma step_w_sinv c st w :
+  v_all_last (c_ver c) = true -> IInv st -> SInv c st -> SInv c (fst (step_w c st w)).
+Proof.
+  intros V II SI. pose proof (step_w_ext c st w) as EXT. revert EXT.
+  unfold step_w. destruct (nth_error (ws st) w) as [x|] eqn:EX; simpl; auto.
+  pose proof (si_w c st SI w x EX) as W.
+  assert (RG : 1 <= w_pc x -> w_g x < length (fracs st)).
+  { destruct II as [_ HW]. rewrite Forall_forall in HW. apply (HW x (nth_error_In _ _ EX)). }
+  set (g := w_g x) in *. set (f0 := getf st g) in *.
+  assert (F0 : forall f1, nth_error (fracs st) g = Some f1 -> f1 = f0).
+  { intros f1 H. unfold f0. symmetry. apply nth_error_getf; auto. }
+  assert (FK0 : fok c f0) by (apply getf_fok; auto).
+  destruct (w_pc x) as [|[|[|[|[|[|[|[|[|pc]]]]]]]]] eqn:PC; simpl.
+  - (* idle -> picked *)
+    destruct (Nat.ltb _ _); simpl; auto. intros _. eapply SInv_wonly; eauto. vac.
+  - (* proxy.append *)
+    destruct (_ && _ && _)%bool; simpl; intros EXT.
+    + eapply SInv_w; eauto; [|vac]. intros f1 H. rewrite (F0 f1 H). eapply (fok_eq c f0); [reflexivity|reflexivity|reflexivity|reflexivity|reflexivity|exact FK0].
+    + eapply SInv_wonly; eauto. vac.
+  - (* DocBlocks.Append *)
+    intros EXT. eapply SInv_w; eauto.
+    + intros f1 H. rewrite (F0 f1 H). eapply (fok_blocks c f0 _ (w, w_cur x)); [reflexivity|reflexivity|reflexivity|reflexivity|reflexivity|exact FK0].
+    + constructor; simpl; intros; try lia. rewrite getf_setw_setf by (apply RG; lia). simpl.
+      fold f0. rewrite nth_error_app2 by lia. rewrite Nat.sub_diag. reflexivity.
+  - (* SetMultiple + Filter *)
+    destruct (set_multiple (w_blk x) 0 (cur_bulk c w x) (f_pos f0)) as [pos' app] eqn:SM. simpl. intros EXT.
+    assert (NB : nth_error (f_blocks f0) (w_blk x) = Some (w, w_cur x)) by (apply (wk_blk _ _ _ _ W); lia).
+    eapply SInv_w; eauto.
+    + intros f1 H. rewrite (F0 f1 H). eapply (fok_pos c f0 _ (w_blk x) (w, w_cur x)); eauto; try reflexivity; simpl.
+      * intros y p Hy. pose proof (set_multiple_ext (w_blk x) (cur_bulk c w x) 0 _ y p Hy) as X. rewrite SM in X. exact X.
+      * intros y b i Hy. pose proof (set_multiple_spec (w_blk x) (cur_bulk c w x) 0 (f_pos f0) y b i) as X.
+        rewrite SM in X. simpl in X. destruct (X Hy) as [X1|[X1 [d [X2 [_ X3]]]]]; auto.
+        right. split; auto. exists d. rewrite Nat.sub_0_r in X2. auto.
+    + pose proof (wok_mono c st _ w x EXT W) as W'.
+      constructor; simpl; intros; try lia.
+      * apply (wk_blk _ _ _ _ W'). lia.
+      * split; [apply incl_filter|]. intros d Hd. apply filter_In in Hd as [_ Hd]. apply mem_id_In in Hd.
+        rewrite getf_setw_setf by (apply RG; lia). simpl.
+        pose proof (set_multiple_app (w_blk x) (cur_bulk c w x) 0 (f_pos f0) (d_id d)) as X. rewrite SM in X. simpl in X. auto.
+  - (* AppendIDs *)
+    intros EXT.
+    assert (NB : nth_error (f_blocks f0) (w_blk x) = Some (w, w_cur x)) by (apply (wk_blk _ _ _ _ W); lia).
+    destruct (wk_docs _ _ _ _ W) as [INC POS]; [lia|].
+    eapply SInv_w; eauto.
+    + intros f1 H. rewrite (F0 f1 H). eapply (fok_ldocs c f0 _ (w_docs x)); eauto; try reflexivity.
+      intros d Hd. split; [|apply POS; auto]. exists (w, w_cur x). split; [eapply nth_error_In; eauto|]. apply INC; auto.
+    + pose proof (wok_mono c st _ w x EXT W) as W'.
+      constructor; simpl; intros; try lia.
+      * apply (wk_blk _ _ _ _ W'). lia.
+      * apply (wk_docs _ _ _ _ W'). lia.
+      * rewrite getf_setw_setf by (apply RG; lia). unfold ldoc; simpl.
+        apply Forall2_from_nth; [rewrite seq_length; auto|].
+        intros i d l Hd Hl. assert (IL : i < length (w_docs x)) by (apply nth_error_Some; congruence).
+        rewrite seq_nth_error in Hl by auto. inversion Hl; subst l.
+        fold f0. unfold f_ids. rewrite map_length. rewrite nth_error_app2 by lia.
+        replace (length (f_ldocs f0) + i - length (f_ldocs f0)) with i by lia. exact Hd.
+  - (* TokenList.Append *)
+    intros EXT. eapply SInv_w; eauto.
+    + intros f1 H. rewrite (F0 f1 H). eapply (fok_add_toks c f0 _ (bulk_toks (cur_bulk c w x))); [reflexivity|reflexivity|reflexivity|reflexivity|reflexivity|exact FK0].
+    + pose proof (wok_mono c st _ w x EXT W) as W'.
+      constructor; simpl; intros; try lia.
+      * apply (wk_blk _ _ _ _ W'). lia.
+      * apply (wk_docs _ _ _ _ W'). lia.
+      * apply (wk_lids _ _ _ _ W'). lia.
+      * rewrite getf_setw_setf by (apply RG; lia). simpl. apply add_toks_all. auto.
+  - (* before the first put *)
+    destruct (put_order (c_ver c) (cur_bulk c w x)) as [|t0 rest] eqn:PO; simpl; intros _.
+    + eapply SInv_wonly; eauto. constructor; simpl; intros; try lia.
+      * apply (wk_blk _ _ _ _ W). lia.
+      * apply (wk_docs _ _ _ _ W). lia.
+    + eapply SInv_wonly; eauto. constructor; simpl; intros; try lia.
+      * apply (wk_blk _ _ _ _ W). lia.
+      * apply (wk_docs _ _ _ _ W). lia.
+      * apply (wk_lids _ _ _ _ W). lia.
+      * apply (wk_toks _ _ _ _ W); auto. lia.
+      * split; [|intros; lia]. unfold order_of, cur_bulk in *; simpl. rewrite PO. simpl. lia.
+  - (* one put *)
+    destruct (wk_put _ _ _ _ W PC) as [K PR].
+    destruct (wk_docs _ _ _ _ W) as [INC POS]; [lia|].
+    pose proof (wk_lids _ _ _ _ W) as F2. specialize (F2 ltac:(lia)).
+    set (t := nth (w_k x) (put_order (c_ver c) (cur_bulk c w x)) 0%N) in *.
+    set (grp := group_lids t (w_docs x) (w_lids x)) in *.
+    assert (FK1 : forall f1, nth_error (fracs st) g = Some f1 ->
+              fok c (mkFrac (f_act f1) (f_sld f1) (f_ro f1) (f_blocks f1) (f_pos f1) (f_ldocs f1)
+                            (upd_tok t (fun y => mkTl (tl_tok y) (tl_sorted y) (tl_queue y ++ grp)) (f_toks f1))
+                            (f_from f1) (f_to f1) (f_total f1) (f_wg f1) (f_rl f1) (f_subs f1) (f_seal f1) (f_sdocs f1) (f_ssui f1))).
+    { intros f1 H. rewrite (F0 f1 H).
+      eapply (fok_put c f0 _ (c_ver c) (cur_bulk c w x) (w_k x) (w_docs x) (w_lids x)); eauto; reflexivity. }
+    destruct (Nat.ltb (S (w_k x)) (length (put_order (c_ver c) (cur_bulk c w x)))) eqn:LT; simpl; intros EXT.
+    + eapply SInv_w; eauto.
+      pose proof (wok_mono c st _ w x EXT W) as W'.
+      constructor; simpl; intros; try lia.
+      * apply (wk_blk _ _ _ _ W'). lia.
+      * apply (wk_docs _ _ _ _ W'). lia.
+      * apply (wk_lids _ _ _ _ W'). lia.
+      * apply (wk_toks _ _ _ _ W'); auto. lia.
+      * apply Nat.ltb_lt in LT. split; [exact LT|]. intros j Hj.
+        destruct (Nat.eq_dec j (w_k x)) as [EJ|NJ].
+        -- subst j. rewrite getf_setw_setf by (apply RG; lia). fold f0.
+           apply Forall2_from_nth; [apply (Forall2_length' _ _ _ F2)|].
+           intros i d l Hd Hl M. unfold order_of, cur_bulk in *; simpl in *. fold t in M. fold t.
+           unfold post; simpl.
+           assert (HT : has_tok t (f_toks f0) = true).
+           { apply (wk_toks _ _ _ _ W); [lia|]. apply (put_order_sub (c_ver c)). apply nth_In. exact K. }
+           rewrite get_tok_upd_same by auto. apply (put_tl_posting grp). right.
+           eapply group_lids_in; eauto.
+        -- destruct (wk_put _ _ _ _ W' PC) as [_ PR']. apply PR'. lia.
+    + eapply SInv_w; eauto.
+      pose proof (wok_mono c st _ w x EXT W) as W'.
+      constructor; simpl; intros; try lia.
+      * apply (wk_blk _ _ _ _ W'). lia.
+      * apply (wk_docs _ _ _ _ W'). lia.
+  - (* UpdateStats *)
+    intros EXT. eapply SInv_w; eauto.
+    + intros f1 H. rewrite (F0 f1 H). eapply (fok_eq c f0); [reflexivity|reflexivity|reflexivity|reflexivity|reflexivity|exact FK0].
+    + pose proof (wok_mono c st _ w x EXT W) as W'.
+      constructor; simpl; intros; try lia.
+      * apply (wk_blk _ _ _ _ W'). lia.
+      * apply (wk_docs _ _ _ _ W'). lia.
+  - (* wg.Done *)
+    intros EXT. eapply SInv_w; eauto; [|vac].
+    intros f1 H. rewrite (F0 f1 H). eapply (fok_eq c f0); [reflexivity|reflexivity|reflexivity|reflexivity|reflexivity|exact FK0].
+Qed.
+
+(* ---------------------------------------------------------------- what a search result is *)
+Definition sound_res (c : config) (f : frac) (q : qspec) (ids : list id) : Prop :=
+  forall x, In x ids ->
+    exists d, blocks_docs c f d /\ d_id d = x /\ in_range (snd (fst q)) (snd q) x = true
+              /\ evald (fst (fst q)) (d_toks d) = true.
+
+Lemma sound_res_blocks c f f' q ids : f_blocks f' = f_blocks f -> sound_res c f q ids -> sound_res c f' q ids.
+Proof.
+  intros E H x Hx. destruct (H x Hx) as [d [[wb [B1 B2]] R]]. exists d. split; auto. exists wb. rewrite E. auto.
+Qed.
+
+Lemma insert_id_In x y l : In x (insert_id y l) -> x = y \/ In x l.
+Proof.
+  induction l; simpl; intros H.
+  - destruct H as [H|[]]; auto.
+  - destruct (id_eqb y a); [auto|]. destruct (id_leb y a); simpl in H.
+    + destruct H as [H|H]; auto.
+    + destruct H as [H|H]; auto. destruct (IHl H); auto.
+Qed.
+
+Lemma sort_ids_In x l : In x (sort_ids l) -> In x l.
+Proof.
+  induction l; simpl; intros H; auto. apply insert_id_In in H as [H|H]; auto.
+Qed.
+
+Lemma nth_firstn {A} (l : list A) n i d : i < n -> nth i (firstn n l) d = nth i l d.
+Proof.
+  revert n i; induction l; intros n i H; destruct n, i; simpl; auto; try lia. apply IHl. lia.
+Qed.
+
+Lemma evalq_ok f m lid d : In lid m -> ldoc f lid d ->
+  forall q snaps rest, Forall2 (leaf_ok f m) (leaves q) snaps ->
+    evalq q (snaps ++ rest) lid = (evald q (d_toks d), rest).
+Proof.
+  intros HL HD. induction q; intros snaps rest F; simpl in *.
+  - inversion F as [|? ? ? ? H1 H2]; subst. inversion H2; subst. simpl. rewrite (H1 lid d HL HD). reflexivity.
+  - apply Forall2_app_inv_l in F as [s1 [s2 [F1 [F2 E]]]]. subst. rewrite <- app_assoc.
+    rewrite (IHq1 s1 (s2 ++ rest) F1). rewrite (IHq2 s2 rest F2). reflexivity.
+  - apply Forall2_app_inv_l in F as [s1 [s2 [F1 [F2 E]]]]. subst. rewrite <- app_assoc.
+    rewrite (IHq1 s1 (s2 ++ rest) F1). rewrite (IHq2 s2 rest F2). reflexivity.
+  - apply Forall2_app_inv_l in F as [s1 [s2 [F1 [F2 E]]]]. subst. rewrite <- app_assoc.
+    rewrite (IHq1 s1 (s2 ++ rest) F1). rewrite (IHq2 s2 rest F2). reflexivity.
+  - rewrite (IHq snaps rest F). reflexivity.
+Qed.
+
+Lemma in_range_clamp qf qt a b x : in_range (N.max qf a) (N.min qt b) x = true -> in_range qf qt x = true.
+Proof.
+  unfold in_range. intros H. apply andb_prop in H as [H1 H2]. apply N.leb_le in H1, H2.
+  apply andb_true_intro. split; apply N.leb_le; lia.
+Qed.
+
+Lemma search_result_sound c f q a b m n s :
+  fok c f -> map_ok f m -> n <= length (f_ldocs f) -> (forall lid, In lid m -> lid < n) ->
+  Forall2 (leaf_ok f m) (leaves (fst (fst q))) s ->
+  sound_res c f q (search_result (firstn n (f_ids f)) q a b m s).
+Proof.
+  intros F M NL LN F2 x Hx. destruct q as [[qq qf] qt]. simpl in *.
+  apply sort_ids_In in Hx. apply in_map_iff in Hx as [lid [EX HL]].
+  apply filter_In in HL as [HL EV]. apply filter_In in HL as [HL RG].
+  destruct (M lid HL) as [NZ [d [D1 D2]]].
+  rewrite nth_firstn in EX, RG by (apply LN; auto). rewrite (nth_ids_ldoc f lid d D1) in EX, RG.
+  exists d. destruct lid as [|k]; [congruence|]. destruct (fk_ldocs c f F k d D1) as [BD _].
+  split; auto. split; auto. subst x. split; [eapply in_range_clamp; eauto|].
+  pose proof (evalq_ok f m (S k) d HL D1 qq s [] F2) as E. rewrite app_nil_r in E. rewrite E in EV. exact EV.
+Qed.
+
+Lemma SInv_set_op c st r op x :
+  SInv c st -> nth_error (rs st) r = Some x -> rok_op st op -> SInv c (set_op st r op).
+Proof.
+  intros SI EX H. apply (SInv_next c st); auto.
+  - intros g; apply fext_refl.
+  - intros g f Hf. eapply si_f; eauto.
+  - intros r' x' Hx. unfold set_op, setr in Hx; simpl in Hx. apply upd_cases in Hx as [Hx|[H1 [x0 [H2 H3]]]]; auto.
+    subst. right. exact H.
+Qed.
+
+(* a fraction rewrite that leaves threads alone *)
+Lemma SInv_setf c st g h :
+  SInv c st -> (forall x, fext x (h x)) -> (forall f0, nth_error (fracs st) g = Some f0 -> fok c (h f0)) ->
+  SInv c (setf st g h).
+Proof.
+  intros SI HX HF. apply (SInv_next c st); auto.
+  - intros g'. apply getf_fext; auto.
+  - eapply fracs_setf_fok; eauto.
+Qed.
+
+Lemma fok_set_rl c f n : fok c f -> fok c (set_rl f n).
+Proof. intros F. eapply (fok_eq c f); [reflexivity|reflexivity|reflexivity|reflexivity|reflexivity|exact F]. Qed.
+
+Lemma SInv_set_rl c st g k : SInv c st -> SInv c (setf st g (fun f => set_rl f (k f))).
+Proof.
+  intros SI. apply SInv_setf; auto.
+  - intros x. apply fext_eq; reflexivity.
+  - intros f0 H. apply fok_set_rl. eapply si_f; eauto.
+Qed.
+
+Lemma getf_set_rl st g k g' :
+  f_ldocs (getf (setf st g (fun f => set_rl f (k f))) g') = f_ldocs (getf st g')
+  /\ f_blocks (getf (setf st g (fun f => set_rl f (k f))) g') = f_blocks (getf st g').
+Proof. rewrite getf_setf. destruct (_ && _)%bool; auto. Qed.
+
+Lemma advance_sinv c st r g q a b m n x : forall p s done,
+  SInv c st -> nth_error (rs st) r = Some x ->
+  map_ok (getf st g) m -> n <= length (f_ldocs (getf st g)) -> (forall lid, In lid m -> lid < n) ->
+  leaves (fst (fst q)) = done ++ p -> Forall2 (leaf_ok (getf st g) m) done s ->
+  SInv c (fst (advance st r g q a b m n s p)) /\
+  (forall ids, snd (advance st r g q a b m n s p) = ORes ids -> sound_res c (getf st g) q ids).
+Proof.
+  induction p; intros s done SI EX M NL LN LV F2; simpl.
+  - rewrite app_nil_r in LV. subst done. split.
+    + eapply (SInv_set_op c _ r RIdle x); [apply SInv_set_rl; auto | exact EX | exact I].
+    + intros ids H. inversion H; subst. apply search_result_sound; auto. apply getf_fok; auto.
+  - destruct (has_tok a0 (f_toks (getf st g))) eqn:HT; simpl.
+    + split; [|intros ids H; discriminate].
+      eapply (SInv_set_op c st r _ x); eauto. simpl. split; [auto|]. split; [auto|].
+      intros _. exists done. auto.
+    + apply (IHp (s ++ [[]]) (done ++ [a0])); auto.
+      * rewrite <- app_assoc. exact LV.
+      * apply Forall2_app; auto. constructor; auto.
+        intros lid d HL HD. simpl. destruct (memN a0 (d_toks d)) eqn:MM; auto.
+        destruct (M lid HL) as [_ [d0 [D1 D2]]]. rewrite (ldoc_fun _ _ _ _ HD D1) in MM.
+        apply D2 in MM. apply post_has_tok in MM. congruence.
 Qed.
